@@ -68,6 +68,7 @@ func End() []Call {
 	return l
 }
 
+//go:norace
 func record(op, path string) (fail bool) {
 	lk()
 	defer ulk()
@@ -184,6 +185,8 @@ func CreateTemp(dir, pattern string) (*File, error) {
 }
 
 // Write applies the write-limit part of the plan.
+//
+//go:norace
 func (f *File) Write(p []byte) (int, error) {
 	lk()
 	lim := plan.WriteLimit
